@@ -9,8 +9,7 @@ CONTRACTS = {
         'assumed': True, 'requires': {}, 'assigns': ['geom[*]'],
         'ensures': {'only_this_geom': 'forall(lambda k: implies(k != off(geom), at(geom, k).segid == old(at(geom, k).segid)'
                                        ' and at(geom, k).objid == old(at(geom, k).objid) and at(geom, k).type == old(at(geom, k).type)'
-                                       ' and at(geom, k).objtype == old(at(geom, k).objtype) and at(geom, k).category == old(at(geom, k).category)))',
-                    'pose_and_size_of_the_other_geoms': 'forall(lambda k: implies(k != off(geom), at(geom, k).pos[0] == old(at(geom, k).pos[0]) and at(geom, k).pos[1] == old(at(geom, k).pos[1]) and at(geom, k).pos[2] == old(at(geom, k).pos[2]) and at(geom, k).size[0] == old(at(geom, k).size[0]) and at(geom, k).size[1] == old(at(geom, k).size[1]) and at(geom, k).size[2] == old(at(geom, k).size[2]) and at(geom, k).mat[0] == old(at(geom, k).mat[0]) and at(geom, k).mat[1] == old(at(geom, k).mat[1]) and at(geom, k).mat[2] == old(at(geom, k).mat[2]) and at(geom, k).mat[3] == old(at(geom, k).mat[3]) and at(geom, k).mat[4] == old(at(geom, k).mat[4]) and at(geom, k).mat[5] == old(at(geom, k).mat[5]) and at(geom, k).mat[6] == old(at(geom, k).mat[6]) and at(geom, k).mat[7] == old(at(geom, k).mat[7]) and at(geom, k).mat[8] == old(at(geom, k).mat[8])))'},
+                                       ' and at(geom, k).objtype == old(at(geom, k).objtype) and at(geom, k).category == old(at(geom, k).category)))',},
     },
     'acquireGeom': {
         'requires': {'inv': 'INV'},
@@ -26,7 +25,6 @@ CONTRACTS = {
             'earlier_geoms_untouched': 'forall(lambda k: implies(0 <= k and k < scn.ngeom, scn.geoms[k].segid == old(scn.geoms[k].segid)'
                                        ' and scn.geoms[k].objid == old(scn.geoms[k].objid) and scn.geoms[k].type == old(scn.geoms[k].type)'
                                        ' and scn.geoms[k].objtype == old(scn.geoms[k].objtype) and scn.geoms[k].category == old(scn.geoms[k].category)))',
-            'earlier_geoms_keep_pose_and_size': 'forall(lambda k: implies(0 <= k and k < scn.ngeom, scn.geoms[k].pos[0] == old(scn.geoms[k].pos[0]) and scn.geoms[k].pos[1] == old(scn.geoms[k].pos[1]) and scn.geoms[k].pos[2] == old(scn.geoms[k].pos[2]) and scn.geoms[k].size[0] == old(scn.geoms[k].size[0]) and scn.geoms[k].size[1] == old(scn.geoms[k].size[1]) and scn.geoms[k].size[2] == old(scn.geoms[k].size[2]) and scn.geoms[k].mat[0] == old(scn.geoms[k].mat[0]) and scn.geoms[k].mat[1] == old(scn.geoms[k].mat[1]) and scn.geoms[k].mat[2] == old(scn.geoms[k].mat[2]) and scn.geoms[k].mat[3] == old(scn.geoms[k].mat[3]) and scn.geoms[k].mat[4] == old(scn.geoms[k].mat[4]) and scn.geoms[k].mat[5] == old(scn.geoms[k].mat[5]) and scn.geoms[k].mat[6] == old(scn.geoms[k].mat[6]) and scn.geoms[k].mat[7] == old(scn.geoms[k].mat[7]) and scn.geoms[k].mat[8] == old(scn.geoms[k].mat[8])))',
             'inv': 'INV',
         },
         'no_error': True,
@@ -105,8 +103,6 @@ ADD_GEOMS = {
         'added_slots_are_model_geoms_with_their_slot_number': 'forall(lambda k: implies(N0 <= k and k < scn.ngeom, scn.geoms[k].objtype == mjOBJ_GEOM and 0 <= scn.geoms[k].objid and scn.geoms[k].objid < m.ngeom and scn.geoms[k].segid == k))',
         'only_geoms_of_an_unmasked_category_and_enabled_group_are_added': 'forall(lambda k: implies(N0 <= k and k < scn.ngeom, SHOWN(scn.geoms[k].objid)))',
         'added_in_index_order': 'forall(lambda k: implies(N0 < k and k < scn.ngeom, scn.geoms[k - 1].objid < scn.geoms[k].objid))',
-        'added_geoms_carry_their_world_frame_and_non_planes_their_world_position': 'forall(lambda k: implies(N0 <= k and k < scn.ngeom, implies(m.geom_type[scn.geoms[k].objid] != mjGEOM_PLANE, scn.geoms[k].pos[0] == d.geom_xpos[3*scn.geoms[k].objid + 0] and scn.geoms[k].pos[1] == d.geom_xpos[3*scn.geoms[k].objid + 1] and scn.geoms[k].pos[2] == d.geom_xpos[3*scn.geoms[k].objid + 2]) and scn.geoms[k].mat[0] == d.geom_xmat[9*scn.geoms[k].objid + 0] and scn.geoms[k].mat[1] == d.geom_xmat[9*scn.geoms[k].objid + 1] and scn.geoms[k].mat[2] == d.geom_xmat[9*scn.geoms[k].objid + 2] and scn.geoms[k].mat[3] == d.geom_xmat[9*scn.geoms[k].objid + 3] and scn.geoms[k].mat[4] == d.geom_xmat[9*scn.geoms[k].objid + 4] and scn.geoms[k].mat[5] == d.geom_xmat[9*scn.geoms[k].objid + 5] and scn.geoms[k].mat[6] == d.geom_xmat[9*scn.geoms[k].objid + 6] and scn.geoms[k].mat[7] == d.geom_xmat[9*scn.geoms[k].objid + 7] and scn.geoms[k].mat[8] == d.geom_xmat[9*scn.geoms[k].objid + 8]))',
-        'added_geoms_carry_their_size_by_type': 'forall(lambda k: implies(N0 <= k and k < scn.ngeom, ((scn.geoms[k].size[0] == m.geom_size[3*scn.geoms[k].objid] and scn.geoms[k].size[1] == m.geom_size[3*scn.geoms[k].objid] and scn.geoms[k].size[2] == m.geom_size[3*scn.geoms[k].objid]) if m.geom_type[scn.geoms[k].objid] == mjGEOM_SPHERE else ((scn.geoms[k].size[0] == m.geom_size[3*scn.geoms[k].objid] and scn.geoms[k].size[1] == m.geom_size[3*scn.geoms[k].objid] and scn.geoms[k].size[2] == m.geom_size[3*scn.geoms[k].objid + 1]) if (m.geom_type[scn.geoms[k].objid] == mjGEOM_CAPSULE or m.geom_type[scn.geoms[k].objid] == mjGEOM_CYLINDER) else (scn.geoms[k].size[0] == m.geom_size[3*scn.geoms[k].objid] and scn.geoms[k].size[1] == m.geom_size[3*scn.geoms[k].objid + 1] and scn.geoms[k].size[2] == m.geom_size[3*scn.geoms[k].objid + 2])))))',
         'earlier_scene_geoms_keep_their_identity': 'forall(lambda k: implies(0 <= k and k < N0, scn.geoms[k].objid == old(scn.geoms[k].objid) and scn.geoms[k].objtype == old(scn.geoms[k].objtype) and scn.geoms[k].segid == old(scn.geoms[k].segid)))',
     },
     'loops': {0: {'invariant': {
@@ -114,8 +110,6 @@ ADD_GEOMS = {
         'added_are_model_geoms': 'forall(lambda k: implies(N0 <= k and k < scn.ngeom, scn.geoms[k].objtype == mjOBJ_GEOM and 0 <= scn.geoms[k].objid and scn.geoms[k].objid < i and scn.geoms[k].segid == k))',
         'added_are_shown': 'forall(lambda k: implies(N0 <= k and k < scn.ngeom, SHOWN(scn.geoms[k].objid)))',
         'added_in_index_order': 'forall(lambda k: implies(N0 < k and k < scn.ngeom, scn.geoms[k - 1].objid < scn.geoms[k].objid))',
-        'added_pose': 'forall(lambda k: implies(N0 <= k and k < scn.ngeom, implies(m.geom_type[scn.geoms[k].objid] != mjGEOM_PLANE, scn.geoms[k].pos[0] == d.geom_xpos[3*scn.geoms[k].objid + 0] and scn.geoms[k].pos[1] == d.geom_xpos[3*scn.geoms[k].objid + 1] and scn.geoms[k].pos[2] == d.geom_xpos[3*scn.geoms[k].objid + 2]) and scn.geoms[k].mat[0] == d.geom_xmat[9*scn.geoms[k].objid + 0] and scn.geoms[k].mat[1] == d.geom_xmat[9*scn.geoms[k].objid + 1] and scn.geoms[k].mat[2] == d.geom_xmat[9*scn.geoms[k].objid + 2] and scn.geoms[k].mat[3] == d.geom_xmat[9*scn.geoms[k].objid + 3] and scn.geoms[k].mat[4] == d.geom_xmat[9*scn.geoms[k].objid + 4] and scn.geoms[k].mat[5] == d.geom_xmat[9*scn.geoms[k].objid + 5] and scn.geoms[k].mat[6] == d.geom_xmat[9*scn.geoms[k].objid + 6] and scn.geoms[k].mat[7] == d.geom_xmat[9*scn.geoms[k].objid + 7] and scn.geoms[k].mat[8] == d.geom_xmat[9*scn.geoms[k].objid + 8]))',
-        'added_size': 'forall(lambda k: implies(N0 <= k and k < scn.ngeom, ((scn.geoms[k].size[0] == m.geom_size[3*scn.geoms[k].objid] and scn.geoms[k].size[1] == m.geom_size[3*scn.geoms[k].objid] and scn.geoms[k].size[2] == m.geom_size[3*scn.geoms[k].objid]) if m.geom_type[scn.geoms[k].objid] == mjGEOM_SPHERE else ((scn.geoms[k].size[0] == m.geom_size[3*scn.geoms[k].objid] and scn.geoms[k].size[1] == m.geom_size[3*scn.geoms[k].objid] and scn.geoms[k].size[2] == m.geom_size[3*scn.geoms[k].objid + 1]) if (m.geom_type[scn.geoms[k].objid] == mjGEOM_CAPSULE or m.geom_type[scn.geoms[k].objid] == mjGEOM_CYLINDER) else (scn.geoms[k].size[0] == m.geom_size[3*scn.geoms[k].objid] and scn.geoms[k].size[1] == m.geom_size[3*scn.geoms[k].objid + 1] and scn.geoms[k].size[2] == m.geom_size[3*scn.geoms[k].objid + 2])))))',
         'earlier': 'forall(lambda k: implies(0 <= k and k < N0, scn.geoms[k].objid == old(scn.geoms[k].objid) and scn.geoms[k].objtype == old(scn.geoms[k].objtype) and scn.geoms[k].segid == old(scn.geoms[k].segid)))',
     }}, 1: {'unroll': 3}, 2: {'unroll': 2}},
 }
@@ -159,7 +153,8 @@ def add_contracts():
     C.update({
         'addGeomGeoms': ADD_GEOMS, 'bodycategory': {'inline': True},
         # proved on its own body above; plus "it writes only the geom it is given" (it stores through geom-> only)
-        'mjv_initGeom': dict(INIT_GEOM, assumed=True, ensures=dict(INIT_GEOM['ensures'], **CONTRACTS['mjv_initGeom']['ensures'])),
+        'mjv_initGeom': dict(INIT_GEOM, assumed=True, ensures=dict({k: v for k, v in INIT_GEOM['ensures'].items() if k in ('type_is_the_argument', 'identifying_fields_untouched')},
+                                                                     **CONTRACTS['mjv_initGeom']['ensures'])),
         'setMaterial': ASSUMED_FRAME(['geom.matid', 'geom.texuniform', 'geom.texrepeat[*]', 'geom.emission', 'geom.specular', 'geom.shininess', 'geom.reflectance', 'geom.rgba[*]', 'geom.texid']),
         'islandColor': ASSUMED_FRAME(['rgba[*]']), 'markselected': ASSUMED_FRAME(['geom.emission', 'geom.rgba[*]', 'geom.specular', 'geom.shininess']),
         'makeLabel': ASSUMED_FRAME(['label[*]']),
